@@ -14,13 +14,32 @@ import concurrent.futures, hashlib, json, os, random, shutil, subprocess, sys, t
 SYSCALLS = ["pwrite64", "fsync", "fdatasync", "ftruncate", "unlink"]
 
 
-def gen_workload(rng, nops, force_b=False):
+def gen_workload(rng, nops, force_b=False, force_rewind=False):
     ops, appends = [], []
     for i in range(nops):
+        # force_rewind: one subscription is saved at the latest event, then set back to the first event, then to
+        # the very start (OffsetOldest), with whatever the workload draws in between - every other workload, so that
+        # no tier and no seed depends on drawing a rewind by chance
+        if force_rewind and len(appends) >= 2 and not any(o.get("forced") for o in ops):
+            ops.append({"kind": "save", "sub": "s2", "ack_ix": appends[-1], "forced": 1})
+            continue
+        if force_rewind and any(o.get("forced") == 1 for o in ops) and not any(o.get("forced") == 2 for o in ops) and i >= nops // 2:
+            ops.append({"kind": "save", "sub": "s2", "ack_ix": appends[0], "forced": 2})
+            continue
+        if force_rewind and any(o.get("forced") == 2 for o in ops) and not any(o.get("forced") == 3 for o in ops) and i == nops - 1:
+            ops.append({"kind": "save", "sub": "s2", "ack_ix": -1, "forced": 3})
+            continue
         if force_b and i == 1:
             ops.append({"kind": "open-b"})
             continue
-        if force_b and i == max(3, nops // 2):
+        # ... while it is open, one subscription is saved through both handles in turn, ending on a position the
+        # first handle has saved before (what a handle remembers of its own saves says nothing about the file)
+        dance = [o for o in ops if o.get("dance")]
+        if force_b and i > 1 and len(appends) >= 2 and len(dance) < 3 and not any(o["kind"] == "close-b" for o in ops):
+            k = len(dance)
+            ops.append({"kind": "save", "sub": "s1", "ack_ix": appends[0] if k != 1 else appends[-1], "via_b": k == 1, "dance": 1})
+            continue
+        if force_b and i >= max(3, nops // 2) and (len(dance) == 3 or i >= nops - 1) and not any(o["kind"] == "close-b" for o in ops):
             ops.append({"kind": "close-b"})
             continue
         r = rng.random()
@@ -248,7 +267,7 @@ def main(pid, tier, chk):
         pool = concurrent.futures.ThreadPoolExecutor(max_workers=chk.NCPU)
         # (every fourth workload has, for certain, a second handle that is opened early and closed cleanly while the
         # first handle goes on appending and saving)
-        workloads = [gen_workload(random.Random(seed * 100003 + w), (rng.randint(3, 14) if tier == "quick" else rng.randint(3, 40)) + (4 if w % 4 == 3 else 0), force_b=(w % 4 == 3)) for w in range(n_workloads)]
+        workloads = [gen_workload(random.Random(seed * 100003 + w), (rng.randint(3, 14) if tier == "quick" else rng.randint(3, 40)) + (4 if w % 4 == 3 else 0), force_b=(w % 4 == 3), force_rewind=(w % 2 == 1)) for w in range(n_workloads)]
         # dry runs: syscall shape of every workload (twice: the shape must be stable, else crash points do not replay)
         futs = {w: (pool.submit(execute_case, child, workdir, Case(w, [workloads[w]], [None])),
                     pool.submit(execute_case, child, workdir, Case(w, [workloads[w]], [None]))) for w in range(n_workloads)}
